@@ -38,7 +38,7 @@ class CostConstrainedRewardConfig(RewardConfigBase):
     name: Literal[RewardLabel.COST_CONSTRAINED] = RewardLabel.COST_CONSTRAINED
     """``str``: Name of this reward function."""
 
-    delta: float = Field(default=0.85, gt=0.0, lt=0.0)
+    delta: float = Field(default=0.85, gt=0.0, lt=1.0)
     """``float``: ratio of information reward to sensor reward."""
 
 
@@ -55,7 +55,7 @@ class CombinedRewardConfig(RewardConfigBase):
     name: Literal[RewardLabel.COMBINED] = RewardLabel.COMBINED
     """``str``: Name of this reward function."""
 
-    delta: float = Field(default=0.85, gt=0.0, lt=0.0)
+    delta: float = Field(default=0.85, gt=0.0, lt=1.0)
     """``float``: ratio of information reward to sensor reward."""
 
 
